@@ -642,6 +642,8 @@ class Interp:
                 if m is not None:
                     return m
                 raise AnalysisError(f"absint: class {base.name} has no method {e.attr}")
+            if isinstance(base, (list, tuple)) and e.attr == "count":
+                return _PyCall(lambda x, _b=base: sum(1 for y in _b if self.equal(x, y)))
             if isinstance(base, (list, tuple)) and e.attr in ("copy", "index", "append", "extend", "remove"):
                 return _ListMeth(base, e.attr)
             if isinstance(base, dict) and e.attr in ("items", "keys", "values", "get", "setdefault"):
